@@ -92,13 +92,39 @@ pub trait Arithmetic {
     fn neg(self) -> Result<Expression, Error>;
 }
 
-impl<T> Arithmetic for T
-where
-    T: Into<CanonicalAssets> + std::fmt::Debug,
-{
+fn assets_overflow(op: &str, x: &CanonicalAssets, y: &CanonicalAssets) -> Error {
+    Error::InvalidBinaryOp(op.to_string(), format!("{x:?}"), format!("{y:?}"))
+}
+
+/// The multi-asset value of a constant asset list. An amount that is not a number
+/// (possible in an IR that was not produced by lowering) and a sum that leaves the
+/// i128 range are errors.
+fn assets_into_canonical(assets: Vec<AssetExpr>, op: &str) -> Result<CanonicalAssets, Error> {
+    let mut result = CanonicalAssets::empty();
+
+    for asset in assets {
+        if !matches!(asset.amount, Expression::Number(_)) {
+            return Err(Error::InvalidUnaryOp(
+                op.to_string(),
+                format!("{:?}", asset.amount),
+            ));
+        }
+
+        let asset = CanonicalAssets::from(asset);
+
+        result = result
+            .clone()
+            .checked_add(asset.clone())
+            .ok_or_else(|| assets_overflow(op, &result, &asset))?;
+    }
+
+    Ok(result)
+}
+
+impl Arithmetic for Vec<AssetExpr> {
     fn add(self, other: Expression) -> Result<Expression, Error> {
         let y = match other {
-            Expression::Assets(x) => CanonicalAssets::from(x),
+            Expression::Assets(x) => assets_into_canonical(x, "add")?,
             Expression::None => CanonicalAssets::empty(),
             other => {
                 return Err(Error::InvalidBinaryOp(
@@ -109,8 +135,14 @@ where
             }
         };
 
-        let x = self.into();
-        let total = x + y;
+        let x = assets_into_canonical(self, "add")?;
+
+        // amounts are i128: a sum outside that range is an error, not a wrap-around
+        let total = x
+            .clone()
+            .checked_add(y.clone())
+            .ok_or_else(|| assets_overflow("add", &x, &y))?;
+
         Ok(Expression::Assets(total.into()))
     }
 
@@ -120,7 +152,13 @@ where
     }
 
     fn neg(self) -> Result<Expression, Error> {
-        let negated = std::ops::Neg::neg(self.into());
+        let x = assets_into_canonical(self, "neg")?;
+
+        let negated = x
+            .clone()
+            .checked_neg()
+            .ok_or_else(|| Error::InvalidUnaryOp("neg".to_string(), format!("{x:?}")))?;
+
         Ok(Expression::Assets(negated.into()))
     }
 }
@@ -270,10 +308,14 @@ impl Coerceable for Expression {
             Expression::None => Ok(Expression::None),
             Expression::Assets(x) => Ok(Expression::Assets(x)),
             Expression::UtxoSet(x) => {
-                let all = x
-                    .into_iter()
-                    .map(|x| x.assets)
-                    .fold(CanonicalAssets::empty(), |acc, x| acc + x);
+                let mut all = CanonicalAssets::empty();
+
+                for utxo in x {
+                    all = all
+                        .clone()
+                        .checked_add(utxo.assets.clone())
+                        .ok_or_else(|| assets_overflow("into_assets", &all, &utxo.assets))?;
+                }
 
                 Ok(Expression::Assets(all.into()))
             }
